@@ -22,6 +22,11 @@ structure Sub where
   id : Nat
   deriving DecidableEq, Repr, Inhabited
 
+/-- A boxed subscriber of a subject (`Box<dyn Publisher<..>>`); `id` names it in the output and in `closedOf`. -/
+structure Pub where
+  id : Nat
+  deriving DecidableEq, Repr, Inhabited
+
 /-- What an observer / subscription does to the outside, in order: a call on THE downstream observer, a call on
     the k-th of several downstream observers (subject subscribers, group subjects), a run of a user callback
     without result (finalizer), `unsubscribe()` of a nested subscription. -/
@@ -58,6 +63,8 @@ def emitError (_ : Obs) (e : Err) : Out := [Ev.n (Notif.error e)]
 def emitComplete (_ : Obs) : Out := [Ev.n Notif.complete]
 /-- `observer.is_finished()`: the downstream's answer is a parameter. -/
 def isFinished (_ : Obs) (down : Bool) : Bool := down
+/-- `p.p_next(v)` / `p_error` / `p_complete` on the k-th boxed subscriber -/
+def emitTo (k : Nat) (x : Notif) : Out := [Ev.to k x]
 /-- a user callback without result is called (`func()` of finalize); `k` names the callback -/
 def emitCall (k : Nat) : Out := [Ev.call k]
 /-- `sub.is_closed()`: the nested subscription's answer is a parameter. -/
